@@ -164,7 +164,9 @@ def judge_explicit(fam, res, modes=('fwd', 'rev'), post=None):
     of_names = list(fam.outputs)
     for mode in modes:
         try:
-            comp = fam.make()
+            with warnings.catch_warnings():
+                warnings.simplefilter('ignore')
+                comp = fam.make()
         except Exception as e:
             fail_exc(res, fam.name, fam.known('construct'), e, 'construction')
             return None
